@@ -15,11 +15,12 @@ class C12(EngineACheck):
     RULE = (
         "generated programs with one failing leaf at any depth (inside containers, cond, seq, map_, "
         "partial tasks; uncaught, or under a catch for another class), executed 2-3 times on one "
-        "backend under full and shallow validity, each under its own seeded schedule; oracles over "
+        "backend (in half of the cases under a non-empty run() context) under full and shallow validity, each under its own seeded schedule; oracles over "
         "the run outcome, the recorded database rows and the task-function execution counter; a "
         "case is (program, schedule signatures); non-trivial = the failure was uncaught"
     )
-    EXPECTED_PROBES = ["uncaught_failures", "caught_failures", "second_execution_reexecutes_leaf"]
+    EXPECTED_PROBES = ["uncaught_failures", "caught_failures", "second_execution_reexecutes_leaf",
+                       "cases_with_context"]
     QUICK_SECONDS = 35.0
 
     def run_one(self, ch: Choices) -> RunOutcome:
@@ -47,11 +48,17 @@ class C12(EngineACheck):
             out.nontrivial = True
         db = schedsim.fresh_db("run.db")
         nexec = 2 + ch.choice(2, "nexec")
+        # Half of the cases run under a non-empty context (the same in every execution): the
+        # cache and CSE lookups then take their context-tagged paths.
+        root_ctx = [None, None, {"env": 1}, {"stage": {"name": "dev", "n": 2}}][ch.choice(4, "root-context")]
+        if root_ctx:
+            out.probe("cases_with_context")
         sess = enginea.ProgramSession(prog)
         with sess:
             for ex in range(nexec):
                 proglib.reset_hits()
-                res = enginea.simulate(ch, prog, db_path=db, session=sess)
+                res = enginea.simulate(ch, prog, db_path=db, session=sess,
+                                       run_kwargs={"context": root_ctx} if root_ctx else None)
                 w, rec = res.world, res.rec
                 self.fill(out, w, prog, extra_key=str(ex))
                 out.nontrivial = expect[0] == "e"
